@@ -81,6 +81,7 @@ pub fn run(ctx: &mut Ctx) {
     ctx.run_suite(&PipeSuite);
     ctx.run_suite(&super::c02socks::SocksStreamSuite);
     ctx.run_suite(&super::c02h3::H3TunnelSuite);
+    ctx.run_suite(&super::c02bp::BackPressureSuite);
     ctx.assume("scripted endpoints are cancel-safe like real sockets (a cancelled read or wait loses nothing) and keep answering EOF after EOF");
     ctx.assume("this check covers the pipe level (pipe.rs); the HTTP/2 window credit of the real codec halves is exercised by C16/C17 sessions, HTTP/3 only through the full stack");
 }
@@ -90,6 +91,7 @@ pub fn replay(ctx: &mut Ctx, suite: &str, case: &Value) -> bool {
         "scripted-pipe" => ctx.replay_suite(&PipeSuite, case),
         "socks5-tunnel-stream" => ctx.replay_suite(&super::c02socks::SocksStreamSuite, case),
         "h3-tunnel-stream" => ctx.replay_suite(&super::c02h3::H3TunnelSuite, case),
+        "bidirectional-back-pressure" => ctx.replay_suite(&super::c02bp::BackPressureSuite, case),
         _ => false,
     }
 }
